@@ -1,6 +1,6 @@
 #!/bin/bash
 # usage: tools/seed3_import.sh <advN>   — adversarial round: the sub-agent chose the property itself
-A=$1; S=/tmp/seed3/$A/_out
+A=$1; S=${SEEDROOT:-/tmp/seed3}/$A/_out
 for k in 1 2 3; do
   [ -f $S/patch$k.diff ] || continue
   D=/verif/seeded/$A-$k
